@@ -4,6 +4,7 @@
 package main
 
 import (
+	"net/url"
 	"bufio"
 	"bytes"
 	"encoding/hex"
@@ -156,6 +157,9 @@ type Req struct {
 	Headers [][2]string // canonical name, value
 	CLen    int64       // ContentLength field
 	Body    []byte
+	// EncSlash k > 0: on the wire the k-th separator after the leading one was written %2F (URL.RawPath is set
+	// accordingly; URL.Path, which is what both routers and the filters look at, is the same decoded text)
+	EncSlash int
 }
 
 func (q *Req) Get(k string) string {
@@ -180,7 +184,28 @@ func (q *Req) Sx() Sx {
 	for _, h := range q.Headers {
 		hs = append(hs, L(A(h[0]), A(h[1])))
 	}
+	if q.EncSlash > 0 {
+		return L(A(q.Method), A(q.Path), hs, q.CLen, q.EncSlash)
+	}
 	return L(A(q.Method), A(q.Path), hs, q.CLen)
+}
+
+// the escaped form of path in which the k-th separator after the leading slash is %2F
+func rawWithEncodedSlash(path string, k int) string {
+	segs := strings.Split(path, "/")
+	if len(segs) < 3 || k < 1 || k+1 >= len(segs) || segs[0] != "" {
+		return ""
+	}
+	out := ""
+	for i := 1; i < len(segs); i++ {
+		if i == k+1 {
+			out += "%2F"
+		} else {
+			out += "/"
+		}
+		out += url.PathEscape(segs[i])
+	}
+	return out
 }
 func (q *Req) HTTP() *http.Request {
 	var body *bytes.Reader
@@ -196,6 +221,9 @@ func (q *Req) HTTP() *http.Request {
 	r.Method = q.Method
 	r.URL.Path = q.Path
 	r.URL.RawPath = ""
+	if q.EncSlash > 0 {
+		r.URL.RawPath = rawWithEncodedSlash(q.Path, q.EncSlash)
+	}
 	r.RequestURI = ""
 	r.ContentLength = q.CLen
 	for _, h := range q.Headers {
